@@ -24,12 +24,15 @@ CFG = {
         "Leptos.Async.C10_suspense_forgets_dropped_readers",
         "Leptos.Async.C10_suspense_reload_after_drop_unnoticed",
         "Leptos.Async.C10_suspense_idle_without_readers",
+        "Leptos.Async.C10_suspense_forgets_dropped_readers_partial",
+        "Leptos.Async.C10_suspense_stale_ids_released_with_the_run",
+        "Leptos.Async.C10_suspense_forgets_dropped_readers_full_false",
+        "Leptos.Async.SInv.runF",
         "Leptos.Async.C10_dirty_stolen_witness",
         "Leptos.Async.C10_settles_on_latest_old1_false",
         "Leptos.Async.C10_stale_initial_witness",
         "Leptos.Async.C10_settles_on_latest_old2_false",
         "Leptos.Async.C10_stale_registration_witness",
-        "Leptos.Async.C10_suspense_forgets_dropped_readers_old3_false",
         "Leptos.Async.runV_repaired",
         "Leptos.Async.run_src",
         "Leptos.Async.run_lastManual",
@@ -64,7 +67,7 @@ CFG = {
             "every awaiter resumed with, every run of the subscriber effect, the boundary's task-list length. Oracle (harness bookkeeping only): value "
             "never fabricated; whenever idle: the boundary's task list is non-empty while a load it has read from is in flight and empty when none is; ALWAYS: while no reader exists under the boundary (none "
             "created since the last `bdrop`) its task list holds nothing but the handles of synchronous reads still waiting for the load they were made "
-            "in (reader tasks not yet polled with loading off): class suspense-stale; at "
+            "in (reader tasks not yet polled with loading off): class suspense-stale = KNOWN FINDING F-C10-3 (= F-C04-5), the model reproduces every hit; at "
             "settled points loading off, value = last manual write or fetch(latest sources), all awaiters resumed, effect saw the current value. "
             "trivial = no tag other than the flavour/settled/fresh-completion ones",
     "trusted": [
@@ -75,8 +78,8 @@ CFG = {
     "modelled": ["spawn_derived! task loop (arc_async_derived.rs)", "ArcAsyncDerived::notify_subs / set_inner_value", "ArcAsyncDerivedInner as ReactiveNode "
                  "(mark_dirty, update_if_necessary; Notifying)", "AsyncDerivedFuture / AsyncDerivedReadyFuture / AsyncDerivedRefFuture poll", "Write/Set impl "
                  "(manual write = store + notify)", "channel.rs", "Effect::new task + EffectInner::update_if_necessary", "MemoInner mark_dirty/update_if_necessary "
-                 "(one memo over signals)", "ScopedFuture (observer re-installed on every poll: reads before and after an await are tracked)", "ArcAsyncDerived::try_read_untracked / AsyncDerivedFuture::poll under a SuspenseContext + the loop's suspense_ids (task ids held per fetch) as "
-                 "SuspenseInterest registrations ending with the reader's Owner (on_cleanup)",
+                 "(one memo over signals)", "ScopedFuture (observer re-installed on every poll: reads before and after an await are tracked)", "ArcAsyncDerived::try_read_untracked / AsyncDerivedFuture::poll under a SuspenseContext + the loop's suspense_ids (task ids held per fetch; "
+                 "not tied to the reader: known finding F-C10-3; the proposed repair hooks/fix-c10-3.patch is the model's `runF true`)",
                  "leptos_server ArcResource::new_with_options (source memo (refetch, source()), untracked fetcher, refetch)", "ArcOnceResource (one future; "
                  "Suspense handle only while there is no value)", "ArcLocalResource/LocalResource (Executor::tick() before every fetch; refetch = tracked signal)"],
     "assumptions": [
@@ -96,12 +99,13 @@ CFG = {
                 "(source writes, refetches, manual writes, completions, awaiter attachments, polls of any woken task in any order): at every settled "
                 "point loading is off, the value is the fetcher's result for the LATEST source values (or the last manual write if that came later) and "
                 "every awaiter has resumed with a value; reads change only by a manual write or by consuming a completed fetch; an idle executor means "
-                "the subscriber saw the current value. A Suspense boundary that has read from the load in flight is waiting, is released when "
-                "nothing is in flight, and takes no part in a reload on behalf of readers that have been disposed (nothing registered, no task id held, task list never growing), "
-                "whatever happens afterwards short of a new reader. "
-                "The statement is about the code after three repairs (F-C10-1 a dependent's check consumed the "
-                "derived's Dirty state; F-C10-2 stale initial future reused when a memo source changed before the first poll; F-C10-3 = F-C04-5 Suspense "
-                "registrations and task ids outlived their readers); the pre-repair code is "
+                "the subscriber saw the current value. A Suspense boundary that has read from the load in flight is waiting and is released when "
+                "nothing is in flight. KNOWN FINDING F-C10-3 (= F-C04-5, class suspense-stale): the boundary joins the next reload on behalf of readers that "
+                "have been disposed (full statement refuted by a kernel witness; proved: the damage is limited to the registrations left behind, the stale id "
+                "goes when that run returns, afterwards the boundary is not joined again; proved about the model with the PROPOSED repair hooks/fix-c10-3.patch "
+                "switched on: nothing registered, no task id held, task list never growing, whatever happens short of a new reader). "
+                "The statement is about the code after two repairs (F-C10-1 a dependent's check consumed the "
+                "derived's Dirty state; F-C10-2 stale initial future reused when a memo source changed before the first poll); the pre-repair code is "
                 "kept as an executable chain with kernel-checked regression witnesses that replay on the unrepaired code. Tied to reactive_graph by "
                 "differential correspondence (exhaustive small op sequences + random).",
         "design_ref": "DESIGN.md §7 C10",
